@@ -157,6 +157,9 @@ func runCheck(repo, prop, tier string, rest []string) int {
 			if !direct[k] && len(o.Tags) > 0 && !hasTag(o.Tags, prop) && (strings.HasPrefix(o.Kind, "panic.") || o.Kind == "overflow" || o.Kind == "conv") {
 				continue // safety of a callee is claimed under the property its safety clause names
 			}
+			if !direct[k] && len(o.Tags) > 0 && !hasTag(o.Tags, prop) && isSideAssertion(o.Kind) {
+				continue // anchored assertions / branch predicates of a callee state another property; callers rely on its ensures only
+			}
 			res.obligs = append(res.obligs, o)
 		}
 		canaries = append(canaries, run.canaries...)
@@ -475,4 +478,12 @@ func strOr(s, d string) string {
 		return d
 	}
 	return s
+}
+
+// isSideAssertion: obligation kinds produced by `at ...: assert` anchors ("at3.stored_x") and `branch k:` clauses.
+func isSideAssertion(kind string) bool {
+	if strings.HasPrefix(kind, "branch") {
+		return true
+	}
+	return len(kind) > 2 && kind[0] == 'a' && kind[1] == 't' && kind[2] >= '0' && kind[2] <= '9'
 }
